@@ -174,6 +174,34 @@ fn main() {
             }
             run_check(&args[2], tier)
         }
+        "debug-ping" => {
+            // sircverif debug-ping <ping_timeout> <pong_timeout> <seconds>: arrival times at a silent client
+            let p: u64 = args[2].parse().unwrap();
+            let q: u64 = args[3].parse().unwrap();
+            let secs: u64 = args[4].parse().unwrap();
+            let mut cfg = cfgspec::CfgSpec::default();
+            cfg.ping_timeout = p;
+            cfg.pong_timeout = q;
+            let mut w = sim::World::new(cfg.to_main_config(), 1);
+            let c = w.connect();
+            w.send_line(c, "NICK k0");
+            w.send_line(c, "USER u 0 * :x");
+            w.settle();
+            w.drain(c);
+            let mut t = 0;
+            while t < secs * 1000 {
+                w.advance(std::time::Duration::from_millis(50));
+                t += 50;
+                for l in w.drain(c) {
+                    println!("t={} {}", w.now_ms(), l);
+                }
+                if w.conns[c].eof {
+                    println!("t={} EOF", w.now_ms());
+                    break;
+                }
+            }
+            0
+        }
         "replay" => {
             if args.len() < 3 {
                 usage();
